@@ -8,14 +8,15 @@ from ..oracle import astcmp, run
 from . import _diff, _lib
 
 ID = "C01"
-USE = ("tok", "sub", "asdl", "lay", "edit", "chr", "lib")
+USE = ("tok", "sub", "asdl", "lay", "edit", "chr", "lib", "spell")
 VOCABS = ("expr", "stmt", "defs", "match", "lit")
 ENGINE = "E-TOK + E-SUB + E-ASDL + E-LAY + E-EDIT, complete tree comparison (astcmp) against ast.parse"
 RULE = (
     "all lexeme sequences of five Python vocabularies up to the length bound, all fillings of 32 sub-grammar carriers, "
     "all parent-field-child paths (k=3) of Python's abstract grammar rendered by ast.unparse (exec and eval mode), every "
     "single layout deviation and every single token edit of the corpus programs; every module of the interpreter's own "
-    "standard library that holds no f-string, as a whole file (a failing file is reduced to its first failing statement). Domain: ast.parse accepts, no xonsh-only "
+    "standard library that holds no f-string, as a whole file (a failing file is reduced to its first failing statement); 20 nesting "
+    "families at depths 10 .. 50 under the interpreter's default recursion limit. Domain: ast.parse accepts, no xonsh-only "
     "lexeme, no f-string, no '@('. Oracle: node types, every field, constants by (type, repr) and all four position "
     "attributes equal. Non-trivial = accepted by CPython and inside the domain (distinct (text, mode) pairs)."
 )
@@ -27,10 +28,30 @@ ASSUMPTIONS = [
 
 
 def units(tier: str) -> list[tuple]:
-    return _diff.units(tier, USE, VOCABS)
+    return _diff.units(tier, USE, VOCABS) + [("nest", i) for i in range(len(NEST))]
 
 
-cases = _diff.cases
+# nesting families, parsed under the interpreter's DEFAULT recursion limit (the workers of this framework raise theirs):
+# the property's domain reaches 50 levels of brackets
+NEST_DEPTHS = (10, 20, 26, 27, 35, 50)
+NEST = [
+    lambda n: "(" * n + "1" + ")" * n + "\n", lambda n: "[" * n + "1" + "]" * n + "\n", lambda n: "f(" * n + "1" + ")" * n + "\n",
+    lambda n: "a[" * n + "1" + "]" * n + "\n", lambda n: "{1: " * n + "1" + "}" * n + "\n", lambda n: "{" * 1 + "(" * (n - 1) + "1" + ")" * (n - 1) + "}\n",
+    lambda n: "x = " + "(a, " * n + "1" + ")" * n + "\n", lambda n: "(" * n + "a" + ")" * n + " = 1\n", lambda n: "[" * n + "a" + "]" * n + " = b\n",
+    lambda n: "del " + "(" * n + "a" + ")" * n + "\n", lambda n: "f(k=" * n + "1" + ")" * n + "\n", lambda n: "x = " + "[1 for i in " * n + "a" + "]" * n + "\n",
+    lambda n: "lambda: (" * n + "1" + ")" * n + "\n", lambda n: "x = " + "(yield " * 1 + "(" * (n - 1) + "1" + ")" * n + "\n",
+    lambda n: "match a:\n    case " + "[" * n + "1" + "]" * n + ":\n        pass\n", lambda n: "x = " + "-(" * n + "1" + ")" * n + "\n",
+    lambda n: "".join(" " * i + "if a:\n" for i in range(n)) + " " * n + "pass\n", lambda n: "x = " + "(a if " * n + "b" + " else c)" * n + "\n",
+    lambda n: "x: " + "list[" * n + "int" + "]" * n + "\n", lambda n: "def f(a=" + "(" * n + "1" + ")" * n + "): pass\n",
+]
+
+
+def cases(unit: tuple):
+    if unit[0] == "nest":
+        for n in NEST_DEPTHS:
+            yield {"src": NEST[unit[1]](n), "mode": "exec", "default_recursion_limit": True}
+        return
+    yield from _diff.cases(unit)
 
 
 def run_unit(unit: tuple, acc: Any) -> None:
@@ -54,9 +75,19 @@ def check_case(case: Any, acc: Any) -> None:
         acc.count("cpython:" + st)
         return
     acc.nontrivial((src, mode))
-    st, tree = run.ours(src, mode)
+    if isinstance(case, dict) and case.get("default_recursion_limit"):
+        import sys
+
+        mine = sys.getrecursionlimit()
+        sys.setrecursionlimit(1000)  # what a program that never touched the limit has
+        try:
+            st, tree = run.ours(src, mode)
+        finally:
+            sys.setrecursionlimit(max(mine, sys.getrecursionlimit()))
+    else:
+        st, tree = run.ours(src, mode)
     acc.ran()
-    c = {"src": src, "mode": mode}
+    c = {"src": src, "mode": mode, **({"default_recursion_limit": True} if isinstance(case, dict) and case.get("default_recursion_limit") else {})}
     if st != run.TREE:
         msg = _MSG.sub("#", str(tree.msg if isinstance(tree, SyntaxError) else tree))[:80]
         acc.count("REJECTED")
